@@ -396,7 +396,7 @@ def conc_case(rng):
 
 
 def gen_cases(rng, tier, budget):
-    n = budget or (1700 if tier == "quick" else 22000)
+    n = budget or (1500 if tier == "quick" else 22000)
     cases = boundary_cases()
     for _ in range(max(20, n // 5)):
         cases.append(conc_case(rng))
@@ -454,7 +454,7 @@ def parse_step(s):
     res, tr = f[0], f[1] if len(f) > 1 else "-"
     delta = {}
     for x in f[2:]:
-        if "=" in x and x[0] in "RSFCLVWND" and x[1] == "=":
+        if "=" in x and x[0] in "RSFCLVWNDH" and x[1] == "=":
             delta[x[0]] = x[2:]
     return res, ([] if tr == "-" else tr.split(",")), delta
 
